@@ -386,6 +386,30 @@ theorem deliver_implies_authentic_after_aborted_packets {U : Cert → Prop} (hin
   rw [hfold] at h ⊢
   exact key (by rw [← h])
 
+/-! ## Round 5: the trust anchors are the CONFIGURED ones -/
+
+/-- THE TRUSTED ROOTS ARE THOSE CONFIGURED: no history of received frames - genuine or forged, in any order, whatever
+    certificates they carry in the signer field or in the signed `requestedCertificate` header field (the P2PCD path by
+    which a receiver with a sign service learns CA certificates) - changes the set of root certificates of the station.
+    Together with `deliver_implies_authentic_after_any_history` (every delivery chains to a root of the CURRENT store):
+    every delivery after any history chains to a root that was configured.  (That the source keeps this discipline is the
+    regenerated write set of `reentrancy_matches_source`: no store to `known_root_certificates` is reachable from
+    `VerifyService.verify`.) -/
+theorem trusted_roots_fixed_after_any_history (cfg : Cfg) (en hv : Bool) (hist : List Packet) (S0 : Station) :
+    (hist.foldl (stepPacket cfg en hv) S0).store.roots = S0.store.roots := by
+  induction hist generalizing S0 with
+  | nil => rfl
+  | cons q rest ih =>
+    simp only [List.foldl_cons]
+    rw [ih]
+    unfold stepPacket
+    rw [gate_state]
+    split
+    · split
+      · exact (verifyMsg_footprint cfg S0 _).1
+      · rfl
+    · rfl
+
 /-! ## Non-vacuity: the honest packet IS delivered, its tampered twins are not -/
 
 def xRoot : Cert :=
@@ -411,6 +435,21 @@ example : (gate Cfg.fixed true true xStation (.unsecured 7)).2 = .drop "unsecure
 example : ((([.secured (some (xMsg (.certs [xEvilAT]) (some 66))), .secured (some (xMsg (.certs [xAT]) (some 12)))] : List Packet).foldl
     (stepPacket Cfg.fixed true true) xStation) |> fun S => (gate Cfg.fixed true true S (.secured (some (xMsg (.digest 12) (some 12))))).2)
     = .pass 7 := by decide
+
+/-- a self-made root and a ticket issued directly by it -/
+def xEvilRoot : Cert := { xRoot with id := 70, key := 70, sigBy := some 70, issue := some [⟨.all, 1⟩] }
+def xEvilAT1 : Cert := { xAT with id := 71, issuer := .digest 70, key := 71, sigBy := some 70 }
+/-- a GENUINE packet (certificate of `xAT`, signed with its key) carrying the self-made root in requestedCertificate is
+    delivered; the root is not filed anywhere (1 root, 1 authority afterwards) and packets under it - by certificate, by
+    digest - are dropped before and after -/
+example : (let inj : Msg := { xMsg (.certs [xAT]) (some 12) with reqCert := some xEvilRoot }
+    let S1 := stepPacket Cfg.fixed true true xStation (.secured (some (xMsg (.certs [xEvilAT1]) (some 71))))
+    let S2 := stepPacket Cfg.fixed true true S1 (.secured (some inj))
+    ((gate Cfg.fixed true true xStation (.secured (some (xMsg (.certs [xEvilAT1]) (some 71))))).2,
+     (gate Cfg.fixed true true S1 (.secured (some inj))).2, S2.store.roots.length, S2.store.aas.length,
+     (gate Cfg.fixed true true S2 (.secured (some (xMsg (.certs [xEvilAT1]) (some 71))))).2,
+     (gate Cfg.fixed true true S2 (.secured (some (xMsg (.digest 71) (some 71))))).2))
+    = (.drop "report-4", .pass 7, 1, 1, .drop "report-4", .drop "report-9") := by decide
 
 /-- a signature scheme in which exactly the genuine packet's signature value (0) is valid, over its content, under key 12 -/
 def xG : SigScheme :=
